@@ -32,6 +32,8 @@ class AutoTrace(Trace):
         super().__init__(tid, names, bdd=self.mgr, seed=seed, meta=meta)
 
     def _emit(self, op, a, ret, exc, pre=None, expect_ok=True, extra=None):
+        if exc or op in ('gc', 'shutdown'):
+            gc.collect()    # Functions caught in exception/traceback cycles
         self.ext = registry(self.mgr)
         return super()._emit(op, a, ret, exc, pre=pre, expect_ok=expect_ok,
                              extra=extra)
